@@ -200,14 +200,10 @@ func canonDoc(op, doc, out string, o *proto.Out) string {
 	}
 	hashed, clear := 0, 0
 	var b strings.Builder
-	canon(&b, ov, func(dec, lexeme string) string {
-		if pre, ok := tbl[dec]; ok {
-			hashed++
-			return marker(pre)
-		}
-		clear++
-		return lexeme
-	})
+	if inErr != nil {
+		in = nil
+	}
+	canonPos(&b, ov, in, tbl, &hashed, &clear)
 	clear += countNonString(ov)
 	switch {
 	case hashed > 0 && clear > 0:
@@ -221,6 +217,94 @@ func canonDoc(op, doc, out string, o *proto.Out) string {
 		o.Count("out-no-leaves")
 	}
 	return proto.Enc(b.String())
+}
+
+// preimage of a primitive of the input document ("" , false for containers).
+func preimage(v *jv) (string, bool) {
+	switch v.k {
+	case kNull:
+		return "null", true
+	case kTrue:
+		return "true", true
+	case kFalse:
+		return "false", true
+	case kStr:
+		return v.s, true
+	case kNum:
+		if f, err := strconv.ParseFloat(v.s, 64); err == nil {
+			return strconv.FormatFloat(f, 'f', 2, 64), true
+		}
+	}
+	return "", false
+}
+
+// canonPos prints the exported document canonically, walking the INPUT document alongside (same index / first
+// field of the same name): an output string at the position of an input primitive is a hash only if it is the
+// MD5 of THAT primitive's pre-image — so a value that merely looks like a digest (or is the MD5 of another leaf)
+// and is exported as itself is printed as itself.  Where the shapes do not line up the global table decides.
+func canonPos(b *strings.Builder, out, in *jv, tbl map[string]string, hashed, clear *int) {
+	switch out.k {
+	case kStr:
+		b.WriteByte('"')
+		if pre, ok := preimageOf(in); ok {
+			if out.s == md5hex(pre) {
+				*hashed++
+				b.WriteString(marker(pre))
+			} else {
+				*clear++
+				b.WriteString(out.raw)
+			}
+		} else if pre, ok := tbl[out.s]; ok {
+			*hashed++
+			b.WriteString(marker(pre))
+		} else {
+			*clear++
+			b.WriteString(out.raw)
+		}
+		b.WriteByte('"')
+	case kArr:
+		b.WriteByte('[')
+		for i, x := range out.a {
+			if i > 0 {
+				b.WriteByte(',')
+			}
+			var xi *jv
+			if in != nil && in.k == kArr && i < len(in.a) {
+				xi = in.a[i]
+			}
+			canonPos(b, x, xi, tbl, hashed, clear)
+		}
+		b.WriteByte(']')
+	case kObj:
+		b.WriteByte('{')
+		for i := range out.keys {
+			if i > 0 {
+				b.WriteByte(',')
+			}
+			escStr(b, out.keys[i])
+			b.WriteByte(':')
+			var xi *jv
+			if in != nil && in.k == kObj {
+				for j, k := range in.keys {
+					if k == out.keys[i] {
+						xi = in.vals[j]
+						break
+					}
+				}
+			}
+			canonPos(b, out.vals[i], xi, tbl, hashed, clear)
+		}
+		b.WriteByte('}')
+	default:
+		canon(b, out, func(dec, lexeme string) string { return lexeme })
+	}
+}
+
+func preimageOf(v *jv) (string, bool) {
+	if v == nil {
+		return "", false
+	}
+	return preimage(v)
 }
 
 func countNonString(v *jv) int {
